@@ -158,6 +158,10 @@ func SearchParsed(pr ParseResult, doc V) Outcome {
 			// before the syntax error
 			o.Fault |= CatUnknownFn | CatArity | CatType
 		}
+		if pr.HasZeroStep {
+			// ... or a slice step of 0
+			o.Fault |= CatValue
+		}
 		return o
 	}
 	st, opt := StaticFaults(pr.Node)
